@@ -1226,7 +1226,7 @@ func (c *i6ctx) ifStmt(v *ast.IfStmt, ind string, next i6kont) (string, error) {
 	}
 	if v.Init != nil {
 		// `if init; cond {..}`: the variables of init are scoped to the if; none of ours is used after it
-		return c.stmts([]ast.Stmt{v.Init, &ast.IfStmt{If: v.If, Cond: v.Cond, Body: v.Body, Else: v.Else}}, ind, next)
+		return c.stmts([]ast.Stmt{v.Init, &ast.IfStmt{If: v.Cond.Pos(), Cond: v.Cond, Body: v.Body, Else: v.Else}}, ind, next)
 	}
 	// statically decided (comma-ok flag, error of a matched call, pointer of a matched lookup)
 	static := i6Unknown
@@ -1510,8 +1510,12 @@ func (x *i6tr) translate(f *i6fn) {
 			f.err = "no `for { }` loop"
 			return
 		}
-		// run the prologue in both cases: it binds the locals
+		// run the prologue in both cases: it binds the locals (its ignored statements are listed once, under _pre)
+		nIgn := len(x.ignored)
 		ptxt, err := c.stmts(pre, "  ", func(c *i6ctx, ind string) (string, error) { return ind + ".ok (g, dstAddr, nTimes)\n", nil })
+		if f.isIter {
+			x.ignored = x.ignored[:nIgn]
+		}
 		if err != nil {
 			f.err = err.Error()
 			return
